@@ -6,7 +6,11 @@
 //! "a wake exactly between select returning and the waker pipe being read" is a generated
 //! value, not luck.  Backlog rounds add the history "a burst was read by one poll, only part of
 //! its events was taken, then the window changes": arrival order across sources is judged
-//! there, and only there, because the construction fixes it.  After the rounds the terminal object is released through a generated
+//! there, and only there, because the construction fixes it.  Storm rounds are the one place
+//! where the schedule is NOT owned: threads wake in a tight loop, truly in parallel with the
+//! polls, to reach windows between two statements of the poll loop that have no hook point; only
+//! the outcome is judged (a request issued after everything earlier was consumed is delivered).
+//! After the rounds the terminal object is released through a generated
 //! exit path and the tty is inspected.
 
 use crate::engine::*;
@@ -82,6 +86,29 @@ pub struct Round {
     /// raised, `timeout` is the timeout of the polls around it)
     #[serde(default)]
     pub backlog: Option<Backlog>,
+    /// the round is a "storm" round instead: several threads issue wake requests in a tight
+    /// loop, truly in parallel with the polls of the main thread (nothing is placed through the
+    /// hook); `pending_output` (<= 4096) is the only other field used
+    #[serde(default)]
+    pub storm: Option<Storm>,
+}
+
+/// Wake requests that race with the polls which consume earlier ones: 2-4 threads call `wake()`
+/// in a tight loop while the main thread polls with zero / short timeouts and takes the Wake
+/// events.  The storm is fixed work: every thread issues at least its number of calls and keeps
+/// calling until the main thread has completed `polls` polls.  When all threads have been joined
+/// and the polls have gone quiet, ONE more request is issued from another thread: it cannot
+/// coalesce with anything (every earlier Wake has been consumed), so it must be delivered.
+#[derive(Clone, Debug, Serialize, Deserialize)]
+pub struct Storm {
+    /// one entry per waking thread (2-4): the least number of wake calls it issues
+    pub calls: Vec<u16>,
+    /// polls of the main thread while the threads are calling
+    pub polls: u16,
+    /// every `short_every`-th of those polls has a timeout of `short_us` microseconds, the others
+    /// a zero timeout (0 = all zero)
+    pub short_every: u8,
+    pub short_us: u16,
 }
 
 /// Input that was read from the tty (and decoded) by a poll that has returned, part of it not
@@ -458,6 +485,196 @@ fn backlog_round(
     Ok(inside)
 }
 
+struct StopOnDrop(Arc<AtomicBool>);
+impl Drop for StopOnDrop {
+    fn drop(&mut self) {
+        self.0.store(true, Ordering::SeqCst);
+    }
+}
+
+/// A storm round (see `Storm`).
+///
+/// Verdicts: (a) all calls completed and the polls delivered no Wake at all; (b) more Wake events
+/// than calls; (c) the request issued after the storm -- all threads joined, zero-timeout polls
+/// quiet, so every earlier request has been consumed and it has nothing to coalesce with -- is not
+/// delivered by a poll with a 2 s timeout, and a second request followed by a second such poll is
+/// not delivered either.  A miss that does not repeat is inconclusive.
+fn storm_round(
+    ri: usize,
+    round: &Round,
+    st: &Storm,
+    term: &mut SystemTerminal,
+    waker: &TerminalWaker,
+    labels: &mut Vec<&'static str>,
+) -> Result<(), Fail> {
+    let poll_err = |e: Error| Fail::new("session/poll-error", format!("round {ri} (storm): poll failed: {e:?}"));
+    let n = st.calls.len().min(4);
+    if n == 0 {
+        labels.push("storm-round-skipped");
+        return Ok(());
+    }
+    // whatever the previous rounds left behind is theirs
+    for _ in 0..64 {
+        match term.poll(Some(Duration::ZERO)) {
+            Ok(Some(_)) => {}
+            Ok(None) => break,
+            Err(e) => return Err(poll_err(e)),
+        }
+    }
+    let pending = round.pending_output.min(4096);
+    if pending > 0 {
+        term.write_all(&vec![b':'; pending]).map_err(|e| Fail::new("session/write-error", format!("{e:?}")))?;
+        labels.push("output-pending");
+    }
+    labels.push("wake-storm");
+    let barrier = Arc::new(std::sync::Barrier::new(n + 1));
+    let stop = Arc::new(AtomicBool::new(false));
+    let reached = Arc::new(std::sync::atomic::AtomicUsize::new(0));
+    let stop_guard = StopOnDrop(stop.clone());
+    let handles: Vec<_> = (0..n)
+        .map(|i| {
+            let w = waker.clone();
+            let min = st.calls[i].max(1) as u64;
+            let (barrier, stop, reached) = (barrier.clone(), stop.clone(), reached.clone());
+            std::thread::spawn(move || {
+                barrier.wait();
+                let (mut issued, mut errors) = (0u64, 0u64);
+                loop {
+                    if w.wake().is_err() {
+                        errors += 1;
+                    }
+                    issued += 1;
+                    if issued == min {
+                        reached.fetch_add(1, Ordering::SeqCst);
+                    }
+                    if issued >= min && stop.load(Ordering::Relaxed) {
+                        break;
+                    }
+                }
+                (issued, errors)
+            })
+        })
+        .collect();
+    barrier.wait();
+    let t0 = Instant::now();
+    let mut wakes = 0u64;
+    let mut polls = 0u32;
+    loop {
+        let short = st.short_every > 0 && polls % st.short_every as u32 == st.short_every as u32 - 1;
+        let timeout = if short { Duration::from_micros(st.short_us as u64) } else { Duration::ZERO };
+        match term.poll(Some(timeout)) {
+            Ok(Some(TerminalEvent::Wake)) => wakes += 1,
+            Ok(_) => {}
+            Err(e) => return Err(poll_err(e)),
+        }
+        polls += 1;
+        if polls >= st.polls.max(1) as u32 && reached.load(Ordering::SeqCst) == n {
+            break;
+        }
+        if t0.elapsed() > Duration::from_secs(10) {
+            return Err(inc("storm round: the waking threads did not get their calls done within 10 s"));
+        }
+    }
+    drop(stop_guard);
+    let (mut issued, mut errors) = (0u64, 0u64);
+    for h in handles {
+        match h.join() {
+            Ok((i, e)) => {
+                issued += i;
+                errors += e;
+            }
+            Err(_) => return Err(inc("storm round: a waking thread panicked")),
+        }
+    }
+    let during = wakes;
+    // every call has returned: what they requested is in the pipe or has been delivered; poll
+    // until the polls have gone quiet (two in a row without an event, nothing left to write)
+    let t1 = Instant::now();
+    let mut quiet = 0;
+    while quiet < 2 {
+        match term.poll(Some(Duration::ZERO)) {
+            Ok(Some(TerminalEvent::Wake)) => {
+                wakes += 1;
+                quiet = 0;
+            }
+            Ok(Some(_)) => quiet = 0,
+            Ok(None) => {
+                if term.frames_pending() == 0 || t1.elapsed() > Duration::from_secs(10) {
+                    quiet += 1;
+                }
+            }
+            Err(e) => return Err(poll_err(e)),
+        }
+    }
+    if errors > 0 {
+        labels.push("storm-wake-call-returned-error");
+    }
+    ensure!(
+        wakes >= 1,
+        "wake/lost",
+        "round {ri} ({:?}): {n} threads completed {issued} wake calls while the main thread polled {polls} times, but neither those polls nor the following ones delivered a Wake event",
+        round
+    );
+    ensure!(
+        wakes <= issued,
+        "wake/more-events-than-requests",
+        "round {ri} (storm): {wakes} Wake events for {issued} wake calls"
+    );
+    if wakes >= 2 {
+        labels.push("wake-storm-several-deliveries");
+    }
+    // one more request, issued when every earlier one has been consumed
+    let mut misses = 0u32;
+    loop {
+        do_wakes(waker, 1);
+        let t2 = Instant::now();
+        let mut got = 0u64;
+        loop {
+            let left = Duration::from_secs(2).saturating_sub(t2.elapsed());
+            match term.poll(Some(left)) {
+                Ok(Some(TerminalEvent::Wake)) => {
+                    got += 1;
+                    break;
+                }
+                Ok(Some(_)) => {}
+                Ok(None) => break,
+                Err(e) => return Err(poll_err(e)),
+            }
+            if left.is_zero() {
+                break;
+            }
+        }
+        while let Ok(Some(ev)) = term.poll(Some(Duration::ZERO)) {
+            if matches!(ev, TerminalEvent::Wake) {
+                got += 1;
+            }
+        }
+        ensure!(
+            got <= 1 + misses as u64,
+            "wake/more-events-than-requests",
+            "round {ri} (storm): {got} Wake events for {} wake call(s) issued after the storm had been consumed",
+            1 + misses
+        );
+        if got >= 1 {
+            break;
+        }
+        misses += 1;
+        ensure!(
+            misses < 2,
+            "wake/lost-after-concurrent-requests",
+            "round {ri} ({:?}): {n} threads issued {issued} wake requests in a tight loop while the main thread polled {polls} times ({during} Wake events taken meanwhile, {wakes} in all); the threads were joined and zero-timeout polls returned nothing any more, so every earlier request had been consumed. A further wake request from another thread then completed, but poll(2 s) timed out without a Wake event; a second request followed by a second poll(2 s) was not delivered either: the request is lost, not coalesced",
+            round
+        );
+    }
+    if misses > 0 {
+        // (the byte of a completed request is in the pipe before the poll is entered; a miss that
+        // does not repeat is not a verdict)
+        return Err(inc("storm round: the request after the storm was delivered only after a retry"));
+    }
+    labels.push("wake-after-storm-delivered");
+    Ok(())
+}
+
 fn run_session(case: &Case) -> Result<(Pass, bool), Fail> {
     let pty = Pty::open().map_err(|e| inc(format!("cannot open pty: {e}")))?;
     let before = pty.termios().map_err(|e| inc(format!("tcgetattr: {e}")))?;
@@ -492,6 +709,10 @@ fn run_session(case: &Case) -> Result<(Pass, bool), Fail> {
             }
             continue;
         }
+        if let Some(st) = &round.storm {
+            storm_round(ri, round, st, &mut term, &waker, &mut labels)?;
+            continue;
+        }
         // `WinchTwice` has a meaning of its own only where SIGWINCH is answered by asking the
         // terminal; there the first signal precedes a poll with a finite timeout, nothing else
         // is going on, and the second signal is placed by the hook below
@@ -506,6 +727,7 @@ fn run_session(case: &Case) -> Result<(Pass, bool), Fail> {
                 position: None,
                 wake_again: false,
                 backlog: None,
+                storm: None,
             },
             (What::WinchTwice, false) => Round { what: What::Winch, ..round.clone() },
             _ => round.clone(),
@@ -1238,6 +1460,7 @@ fn finish(labels: Vec<&'static str>, inside_poll: bool, master_closed: bool) -> 
             || labels.contains(&"termination-signal-during-release")
             || labels.contains(&"drop-with-chunk-in-flight")
             || labels.contains(&"position-call")
+            || labels.contains(&"wake-storm")
             || labels.contains(&"winch-behind-input-still-queued"),
     )
         .label_if(inside_poll, "placed-inside-poll")
@@ -1302,11 +1525,37 @@ impl Property for C17 {
                     Backlog { burst, take, output_first, output }
                 }),
         );
-        let round = (what, place, timeout, pending, any::<bool>(), pos_round, proptest::bool::weighted(0.3), backlog).prop_map(|(what, place, timeout, pending_output, hold, position, wake_again, backlog)| {
+        // storm rounds: 2-4 threads, each at least 200-3000 wake calls in a tight loop, kept up
+        // until the main thread has polled 50-400 times (zero timeout; optionally every 2nd-5th
+        // poll 50-500 us)
+        let storm = proptest::option::weighted(
+            0.15,
+            (
+                proptest::collection::vec(200u16..=3000, 2..=4),
+                50u16..=400,
+                prop_oneof![2 => Just(0u8), 1 => 2u8..=5],
+                50u16..=500,
+            )
+                .prop_map(|(calls, polls, short_every, short_us)| Storm { calls, polls, short_every, short_us }),
+        );
+        let round = (what, place, timeout, pending, any::<bool>(), pos_round, proptest::bool::weighted(0.3), backlog, storm).prop_map(|(what, place, timeout, pending_output, hold, position, wake_again, backlog, storm)| {
             if backlog.is_some() {
                 // the fields a backlog round does not use are given their neutral values
                 let timeout = if timeout == Timeout::Infinite { Timeout::Ms50 } else { timeout };
-                return Round { what: What::Winch, place, timeout, pending_output: 0, hold_stall: false, position: None, wake_again: false, backlog };
+                return Round { what: What::Winch, place, timeout, pending_output: 0, hold_stall: false, position: None, wake_again: false, backlog, storm: None };
+            }
+            if storm.is_some() {
+                return Round {
+                    what: What::Wake { threads: 1 },
+                    place: Place::BeforePoll,
+                    timeout: Timeout::Zero,
+                    pending_output: if pending_output > 4096 { 0 } else { pending_output },
+                    hold_stall: false,
+                    position: None,
+                    wake_again: false,
+                    backlog: None,
+                    storm,
+                };
             }
             // position(): the requests must reach a terminal that reads; typed characters keep
             // their order of arrival only if those of the action are typed before the request
@@ -1330,7 +1579,7 @@ impl Property for C17 {
                 (_, p) => p,
             };
             let hold_stall = hold && pending_output > 4096 && timeout != Timeout::Infinite;
-            Round { what, place, timeout, pending_output, hold_stall, position, wake_again, backlog: None }
+            Round { what, place, timeout, pending_output, hold_stall, position, wake_again, backlog: None, storm: None }
         });
         let exit = prop_oneof![
             3 => Just(Exit::Drop),
@@ -1368,12 +1617,13 @@ impl Property for C17 {
     }
 
     fn rule(&self) -> String {
-        "session = real SystemTerminal on a pseudo-terminal (one per worker process) with a scripted peer; 0-4 rounds, each: {1-3 concurrent wake calls from other threads | the peer types 1-6 characters | raise(SIGWINCH)} placed before the poll or at one of 7 named points (loop start, before/after select, before signal processing, before the waker read, before the tty read, loop end) of loop iteration 0-2 of a poll with timeout 0 / 50 ms / none, optionally with 1-40000 bytes of output pending (above 4096 the peer is stalled, for 30 ms or -- finite timeouts, half of those rounds -- until the round's events have been delivered, which zero-timeout polls must achieve within 2 s although the output stays pending); then drained with zero-timeout polls. One round in ten calls Terminal::position() instead of poll: the peer answers the cursor position request after 0 / 1-59 / 200-399 / 1200 ms, optionally typing 1-3 characters in the same write as its answer; nothing that arrived meanwhile may be lost or reordered. In 30% of the wake rounds one more wake request is issued as soon as the poll under test has returned, before any other poll is entered; it must produce a further Wake event. A `WinchTwice` round (escape-sequence size sessions) raises SIGWINCH, polls with 50 ms, and raises it again through the hook right after the terminal has answered the size request and before the terminal object has read the answer: two Resize events must arrive within 2 s. One round in eight is a backlog round: the peer types 3-8 characters as one burst (one write; the harness waits, bounded, until FIONREAD on its own slave handle shows the whole burst in the tty's input buffer), optionally 1-2999 bytes of output are queued first, one poll (timeout 0 / 50 ms) delivers the first key -- its read has taken the whole burst out of the tty, checked with FIONREAD = 0 afterwards, so the other keys stay queued inside the terminal object --, the application takes 0-2 more keys with one poll each (at least one stays queued), three times out of four queues 1-1999 or 5000-39999 bytes of output (draws a frame), then SIGWINCH is raised before the next poll or at one of the 7 points of its loop iteration 0-2, and everything is drained: the burst in order, >=1 Resize, and -- only where the construction above was confirmed, otherwise the round counts as `backlog-not-established` and no order is judged -- every key of the burst before the Resize event, because those characters had been received by a poll that returned before the signal was raised. Oracles: >=1 and <= #calls Wake events for wake rounds, typed characters delivered in order, >=1 Resize per SIGWINCH round, no spurious Wake, Resize never ahead of input received before the signal (backlog rounds). Exit path: drop | drop with pending output | Terminal::run handler error/quit at step k | run_render handler error at step k | SIGTERM/SIGINT/SIGQUIT (must surface as Error::Quit) | SIGTERM/SIGINT/SIGQUIT raised at one of the 7 points of the first poll iteration inside drop | drop with the front chunk of the output queue partly transmitted (peer stalled, 20-200 kB written and polled, 1-3000 more bytes queued, peer resumes, drop) | an application that switched mouse reporting on and the cursor off, wrote a frame, queued its own cursor-visible/mouse-off commands behind it (optionally polled once) and is dropped: the last set/reset the tty received for modes 1000, 1003, 1006 must be reset and for mode 25 set | master closed first; one session in four runs on a pty whose ioctl reports no pixel size while the peer answers CSI 18 t CSI 14 t, so the terminal object takes its size from escape sequences and answers SIGWINCH by asking the terminal (the Resize event then gets the same bounded 2 s as typed characters); afterwards tcgetattr on the slave must equal the snapshot taken before open and (master still open) the bytes received after the last application output must contain ESC[?1003l, ESC[?1006l, ESC[?1000l and ESC[?25h. non-trivial = a trigger placed strictly inside a poll or inside the release, or output pending during a round or at release, or a window-size signal raised while input received earlier was still queued".into()
+        "session = real SystemTerminal on a pseudo-terminal (one per worker process) with a scripted peer; 0-4 rounds, each: {1-3 concurrent wake calls from other threads | the peer types 1-6 characters | raise(SIGWINCH)} placed before the poll or at one of 7 named points (loop start, before/after select, before signal processing, before the waker read, before the tty read, loop end) of loop iteration 0-2 of a poll with timeout 0 / 50 ms / none, optionally with 1-40000 bytes of output pending (above 4096 the peer is stalled, for 30 ms or -- finite timeouts, half of those rounds -- until the round's events have been delivered, which zero-timeout polls must achieve within 2 s although the output stays pending); then drained with zero-timeout polls. One round in ten calls Terminal::position() instead of poll: the peer answers the cursor position request after 0 / 1-59 / 200-399 / 1200 ms, optionally typing 1-3 characters in the same write as its answer; nothing that arrived meanwhile may be lost or reordered. In 30% of the wake rounds one more wake request is issued as soon as the poll under test has returned, before any other poll is entered; it must produce a further Wake event. A `WinchTwice` round (escape-sequence size sessions) raises SIGWINCH, polls with 50 ms, and raises it again through the hook right after the terminal has answered the size request and before the terminal object has read the answer: two Resize events must arrive within 2 s. One round in eight is a backlog round: the peer types 3-8 characters as one burst (one write; the harness waits, bounded, until FIONREAD on its own slave handle shows the whole burst in the tty's input buffer), optionally 1-2999 bytes of output are queued first, one poll (timeout 0 / 50 ms) delivers the first key -- its read has taken the whole burst out of the tty, checked with FIONREAD = 0 afterwards, so the other keys stay queued inside the terminal object --, the application takes 0-2 more keys with one poll each (at least one stays queued), three times out of four queues 1-1999 or 5000-39999 bytes of output (draws a frame), then SIGWINCH is raised before the next poll or at one of the 7 points of its loop iteration 0-2, and everything is drained: the burst in order, >=1 Resize, and -- only where the construction above was confirmed, otherwise the round counts as `backlog-not-established` and no order is judged -- every key of the burst before the Resize event, because those characters had been received by a poll that returned before the signal was raised. One round in seven is a storm round (nothing placed through the hook, real parallelism): 2-4 threads start together and each calls wake() in a tight loop, at least 200-3000 times and until the main thread has completed 50-400 polls (zero timeout; in a third of the storms every 2nd-5th poll has 50-500 us), optionally with 1-2000 bytes of output pending; the main thread takes the Wake events; the threads are joined and zero-timeout polls continue until two in a row return nothing; >=1 and <= #calls Wake events; then ONE more wake request is issued from another thread -- every earlier request has been consumed, so it has nothing to coalesce with -- and a poll with a 2 s timeout must return a Wake event (exactly one); a miss is retried once (second request, second 2 s poll) and is a violation (`wake/lost-after-concurrent-requests`) only if it repeats, a miss that does not repeat is inconclusive. Oracles: >=1 and <= #calls Wake events for wake rounds, typed characters delivered in order, >=1 Resize per SIGWINCH round, no spurious Wake, Resize never ahead of input received before the signal (backlog rounds). Exit path: drop | drop with pending output | Terminal::run handler error/quit at step k | run_render handler error at step k | SIGTERM/SIGINT/SIGQUIT (must surface as Error::Quit) | SIGTERM/SIGINT/SIGQUIT raised at one of the 7 points of the first poll iteration inside drop | drop with the front chunk of the output queue partly transmitted (peer stalled, 20-200 kB written and polled, 1-3000 more bytes queued, peer resumes, drop) | an application that switched mouse reporting on and the cursor off, wrote a frame, queued its own cursor-visible/mouse-off commands behind it (optionally polled once) and is dropped: the last set/reset the tty received for modes 1000, 1003, 1006 must be reset and for mode 25 set | master closed first; one session in four runs on a pty whose ioctl reports no pixel size while the peer answers CSI 18 t CSI 14 t, so the terminal object takes its size from escape sequences and answers SIGWINCH by asking the terminal (the Resize event then gets the same bounded 2 s as typed characters); afterwards tcgetattr on the slave must equal the snapshot taken before open and (master still open) the bytes received after the last application output must contain ESC[?1003l, ESC[?1006l, ESC[?1000l and ESC[?25h. non-trivial = a trigger placed strictly inside a poll or inside the release, or output pending during a round or at release, or a window-size signal raised while input received earlier was still queued, or a storm round".into()
     }
 
     fn assumptions(&self) -> Vec<String> {
         vec![
             "interleavings are placed through the verif hook at 7 named points of the poll loop and by joining the waking threads inside the hook; kernel-side races inside select(2) itself are not enumerable".into(),
+            "storm rounds sample the interleavings the hook cannot place (a request landing between two adjacent statements of the poll loop): the schedule is the machine's, so what is judged is only its outcome -- a request issued after all waking threads were joined and zero-timeout polls had gone quiet cannot coalesce with an earlier one, its byte is in the pipe when wake() has returned, so the next poll must deliver it whatever happened before; 2 s and one retry are generosity towards a loaded machine, not part of the statement; whether a particular storm hits a particular window is chance, so a storm that passes proves nothing about windows it did not hit (needs >= 2 cores actually running the threads in parallel)".into(),
             "bounded time: after the wake/signal/typing calls have returned their bytes are already in the respective pipes, so zero-timeout polls must deliver them; poll(None) is guarded by a rescue thread that types a character after 3 s — a poll that had to be ended that way although the wake/typing/signal calls had completed is reported (the harness owns the schedule, so this is reproducible); a rescue without a completed trigger is inconclusive".into(),
             "order is checked per source (characters typed by the peer); between sources select gives no order, so order between typed characters and a window-size signal is judged only in backlog rounds, where it is fixed by construction: all characters were in the tty's input buffer before a poll (FIONREAD on a second handle of the slave), none was left after that poll returned (nobody else reads the slave), and the signal was raised only afterwards -- arrival order then puts their key events before the Resize event; no order is demanded between a signal and bytes not yet read, nor between wake requests and anything else (the statement names input bytes and window-size signals); a burst that does not show up in the input buffer within 2 s, a first poll that does not deliver the first key, or a read that leaves bytes behind makes the round an ordinary input + signal round (label backlog-not-established), never a violation".into(),
             "the peer answers the library's DA1 sync requests, so dispose() does not wait for its 1 s timeout".into(),
